@@ -56,9 +56,10 @@ def units(kind: str) -> List[List[Any]]:
     return u
 
 
-def build(layout, us, skew=0) -> List[Dict[str, Any]]:
+def build(layout, us, skew=0, root_in_step=False) -> List[Dict[str, Any]]:
     t0 = E0 + skew
-    evs = [kineto.cpu_op("aten::root", t0 - 2, 1, ext=0)]
+    # event 0 (the leading host operator) normally precedes every step; root_in_step puts it at the start of the first step
+    evs = [kineto.cpu_op("aten::root", (t0 + layout[0][0]) if (root_in_step and layout) else (t0 - 2), 1, ext=0)]
     for k, (a, b) in enumerate(layout):
         evs.append(kineto.step(STEP_NUMS[k], t0 + a, b - a))
     corr = 20
@@ -101,6 +102,9 @@ def worlds(tier: str, stats: Dict[str, Any]) -> Iterator[Any]:
                 stats["transitions"] += 1
                 evs = build(lay, us)
                 yield dict(layout=lay, units=us, include_last=inc, ranks={"0": evs})
+                if len(us) == 1 and lay and us[0][0] in ("orphan", "launch", "esync"):
+                    stats["transitions"] += 1
+                    yield dict(layout=lay, units=us, include_last=inc, root_in_step=True, ranks={"0": build(lay, us, root_in_step=True)})
                 if len(us) == 1:
                     stats["transitions"] += 2
                     yield dict(layout=lay, units=us, include_last=inc, ranks={"0": [evs[0]] + evs[1:][::-1]})
